@@ -768,12 +768,14 @@ class TaskDispatcher(object):
                     also known as the execution detail. One difference is that
                     for the API response the keys are lowerCamelCase whereas
                     for the internal stepfunction results the keys are Pascal
-                    Case so we need to clone execution_detail and capitalize.
+                    Case so we need to clone execution_detail and upper-case
+                    the first letter of each key (str.capitalize() would also
+                    lower-case the rest, turning executionArn into Executionarn).
                     Also for the .sync:2 resource the Input and Output fields
                     are JSON not String.
                     """
                     result = {
-                        k.capitalize(): v for k, v in execution_detail.items()
+                        k[:1].upper() + k[1:]: v for k, v in execution_detail.items()
                     }
                     resource_type = "states"
                     if resource_arn.endswith(".sync:2"):
